@@ -87,7 +87,7 @@ def make_op(rw, ro, rp, fmt, backend, split, push0, contract_pick=False):
         blocks = [zero_block(rw, pseudo=True) + [("PUSH [tag]", str(rw.randrange(1, 9))), ("JUMP", None)] for _ in range(6)]
         if fmt == "asm":
             doc = CT.gen_combined(rw, ncontracts=2, nblocks_init=1, nblocks_run=2, blocks=blocks)
-            op = C.asm_op(doc, flags)
+            op = C.asm_op(doc, flags + (["-log"] if not contract_pick and rw.random() < 0.6 else []))
             if contract_pick:
                 names = [k for k, v in doc["contracts"].items() if v.get("asm")]
                 cn = rw.choice(names).split("/")[-1].split(":")[-1]
@@ -314,6 +314,34 @@ def task(spec):
                 viols.append({"class": ["flag-history", what, "prev=%s" % ("on" if hist[-2] else "off"), "now=%s" % ("on" if hist[-1] else "off")],
                               "detail": "op %d gives different %s after ops with PUSH0 flags %s than alone | argv %s" % (
                                   nops - 1, what, hist[:-1], " ".join(ops[-1]["argv"][1:])), "replay": {"ops": ops}})
+    # the log of an asm run replayed with the same options: the instruction-set choice has to reach that path as well
+    for op, res in zip(ops, results):
+        if op["fmt"] == "asm" and "-log" in op["argv"] and "-c" not in op["argv"] and res["exc"] is None:
+            from gsim.checks import c11
+            log = res["files"].get(C.log_path(op))
+            direct = res["files"].get(C.output_path(op))
+            if log is None or direct is None:
+                continue
+            files = dict(op["files"])
+            files[C.log_path(op)] = log.decode()
+            rop = c11.replay_op(op, files)
+            st2, rres = procs.run_sut(pipe.run_op_seq, [rop], cpu_s=200)
+            if st2 != "ok":
+                continue
+            r2 = rres[0]
+            summ["evals"] += 1
+            summ["probes"]["log_replayed_push0_%s" % ("on" if op["desc"]["push0"] else "off")] = \
+                summ["probes"].get("log_replayed_push0_%s" % ("on" if op["desc"]["push0"] else "off"), 0) + 1
+            out2 = r2["files"].get(C.output_path(rop))
+            if r2["exc"] is not None or out2 is None:
+                viols.append({"class": ["replay", "push0-on" if op["desc"]["push0"] else "push0-off", "error"],
+                              "detail": "replay of the run's own log failed (%s) | argv %s" % (
+                                  (r2["exc"] or {}).get("msg", "no output")[:200], " ".join(rop["argv"][1:])), "replay": {"ops": ops}})
+            elif out2 != direct:
+                viols.append({"class": ["replay", "push0-on" if op["desc"]["push0"] else "push0-off", "differs"],
+                              "detail": "replay of the run's own log gives another document (PUSH0 count %d vs %d) | argv %s" % (
+                                  out2.count(b'"PUSH0"'), direct.count(b'"PUSH0"'), " ".join(rop["argv"][1:])), "replay": {"ops": ops}})
+            break
     viols += check_spec_instruction_set(rw, i, summ)
     if not summ["samples"]:
         summ["samples"].append({"ops": [{"argv": o["argv"][1:], "push0": o["desc"]["push0"]} for o in ops]})
@@ -340,6 +368,24 @@ def replay(rp):
         vs = check_result(op, res, summ)
         if vs:
             return vs[0]
+    for op, res in zip(ops, results):
+        if op["fmt"] == "asm" and "-log" in op["argv"] and "-c" not in op["argv"] and res["exc"] is None:
+            from gsim.checks import c11
+            log, direct = res["files"].get(C.log_path(op)), res["files"].get(C.output_path(op))
+            if log is None or direct is None:
+                continue
+            files = dict(op["files"])
+            files[C.log_path(op)] = log.decode()
+            rop = c11.replay_op(op, files)
+            st2, rres = procs.run_sut(pipe.run_op_seq, [rop], cpu_s=200)
+            if st2 == "ok":
+                out2 = rres[0]["files"].get(C.output_path(rop))
+                tag = "push0-on" if op["desc"]["push0"] else "push0-off"
+                if rres[0]["exc"] is not None or out2 is None:
+                    return {"class": ["replay", tag, "error"], "detail": "replay of the run's own log failed", "replay": rp}
+                if out2 != direct:
+                    return {"class": ["replay", tag, "differs"], "detail": "replay of the run's own log gives another document", "replay": rp}
+            break
     if len(ops) > 1:
         st1, alone = procs.run_sut(pipe.run_op_seq, [ops[-1]], cpu_s=200)
         if st1 == "ok" and comparable(results[-1]) != comparable(alone[0]):
